@@ -72,10 +72,12 @@ def _concrete_key(inputs):
 
 
 def _bool_const(c):
-    c = z3.simplify(c)
-    if z3.is_true(c):
+    """(True|False|None, term): the term is returned as built -- simplify()'s argument order is not stable
+    across re-executions and would upset the engine's decision fingerprints"""
+    s = z3.simplify(c)
+    if z3.is_true(s):
         return True, c
-    if z3.is_false(c):
+    if z3.is_false(s):
         return False, c
     return None, c
 
@@ -106,28 +108,69 @@ def _dh_eq(a, b):
     return z3.Or(inputs_eq(a, b), inputs_eq(a, [b[1], b[0]]))
 
 
+_FUNCS = {}
+
+
+def _funcs(kind, outlen):
+    k = (kind, outlen)
+    if k not in _FUNCS:
+        I = z3.IntSort()
+        _FUNCS[k] = (z3.Function("%s%d.byte" % (kind, outlen), I, I, I), z3.Function("%s%d.inv" % (kind, outlen), *([I] * outlen + [I])))
+    return _FUNCS[k]
+
+
+def _pseudo(tag, key, outlen):
+    out = b""
+    k = 0
+    while len(out) < outlen:
+        out += hashlib.sha512(repr((tag, key, k)).encode()).digest()
+        k += 1
+    return out[:outlen]
+
+
+def _out_eq(a, b):
+    if a._token is not None and b._token is not None:
+        return a._token == b._token
+    return a.eq_term(b)
+
+
 def ideal(kind, inputs, outlen, eq=inputs_eq, memo=True):
-    """output of an ideal deterministic function: fresh bytes, equal to an earlier output of the same
-    kind exactly when the inputs are equal"""
-    key = _concrete_key(inputs) if memo else None
-    if key is not None and (kind, key) in W.memo:
+    """output of an ideal deterministic function.
+    Concrete inputs: a concrete pseudo-random string determined by them (so honest messages stay concrete).
+    Symbolic inputs: the application gets a token t; its output bytes are byte(t, k) and
+    t = inv(byte(t,0), .., byte(t,n-1)), so tokens are equal exactly when the output strings are.
+    In both cases the output equals an earlier output of the same kind exactly when the inputs are equal."""
+    key = _concrete_key(inputs)
+    if key is not None and kind == "dh":
+        key = tuple(sorted(key))
+    if memo and key is not None and (kind, key) in W.memo:
         return W.memo[(kind, key)]
     W.n += 1
-    out = sx.Bytes("%s#%d" % (kind, W.n), outlen, outlen)
     lst = W.entries.setdefault(kind, [])
+    if key is not None:
+        out = SymBytes.of(_pseudo(kind, key, outlen))
+        out._token = None
+    else:
+        F, Inv = _funcs(kind, outlen)
+        t = z3.Int("%s#%d" % (kind, W.n))
+        items = [F(t, z3.IntVal(k)) for k in range(outlen)]
+        sx.E.add_fact(z3.And(*[z3.And(b >= 0, b <= 255) for b in items]))
+        sx.E.add_fact(t == Inv(*items))
+        out = SymBytes.from_items(items)
+        out._token = t
     for inp_j, out_j in lst:
-        if len(out_j.items) != outlen:
+        if len(out_j.items) != outlen or (key is not None and out_j._token is None):
             continue
         k, c = _bool_const(eq(inputs, inp_j))
-        oe = out.eq_term(out_j)
+        te = _out_eq(out, out_j)
         if k is True:
-            sx.E.add_fact(oe)
+            sx.E.add_fact(te)
         elif k is False:
-            sx.E.add_fact(z3.Not(oe))
+            sx.E.add_fact(z3.Not(te))
         else:
-            sx.E.add_fact(c == oe)
+            sx.E.add_fact(c == te)
     lst.append((list(inputs), out))
-    if key is not None:
+    if memo and key is not None:
         W.memo[(kind, key)] = out
     return out
 
@@ -169,23 +212,26 @@ class MacBytes(SymBytes):
 
 # ------------------------------------------------------------------ primitive stubs
 class IdealHash:
-    def __init__(self, algorithm, chunks=None):
+    def __init__(self, algorithm, data=None):
         self.algorithm = algorithm
-        self.chunks = list(chunks or [])
+        self.data = data if data is not None else SymBytes.of(b"")
 
     def update(self, data):
         if not isinstance(data, (SymBytes, bytes, bytearray, memoryview)):
             raise TypeError("data must be bytes-like")
-        self.chunks.append(SymBytes.of(data))
+        d = SymBytes.of(data)
+        if isinstance(d.length, sx.SymInt):
+            u = sx.unique_value(d.length)
+            if u is not None:
+                d = SymBytes(u, d.get)
+        d.materialize()
+        self.data = self.data + d
 
     def copy(self):
-        return IdealHash(self.algorithm, self.chunks)
+        return IdealHash(self.algorithm, self.data)
 
     def finalize(self):
-        data = SymBytes.of(b"")
-        for c in self.chunks:
-            data = data + c
-        return ideal("hash", [self.algorithm.name, data], self.algorithm.digest_size)
+        return ideal("hash", [self.algorithm.name, self.data], self.algorithm.digest_size)
 
 
 class IdealHMAC:
@@ -229,7 +275,7 @@ class IdealDHPublic:
 
     @classmethod
     def from_public_bytes(cls, data):
-        if sx._len(data) != 32:
+        if sx.sym_len(data) != 32:
             raise ValueError("An X25519 public key is 32 bytes long")
         return cls(data)
 
@@ -311,8 +357,15 @@ class IdealPrivateKey:
 
     def sign(self, data, *params):
         W.n += 1
-        out = sx.Bytes("sig#%d" % W.n, 64, 64)
-        W.entries.setdefault("sig", []).append(([self.keyid, _params_key(params), SymBytes.of(data)], out))
+        pk = _params_key(params)
+        key = _concrete_key([data])
+        if key is not None:
+            out = SymBytes.of(_pseudo("sig", (self.keyid, pk, key), 64))
+        else:
+            items = [z3.Int("sig#%d.%d" % (W.n, k)) for k in range(64)]
+            sx.E.add_fact(z3.And(*[z3.And(b >= 0, b <= 255) for b in items]))
+            out = SymBytes.from_items(items)
+        W.entries.setdefault("sig", []).append(([self.keyid, pk, SymBytes.of(data)], out))
         return out
 
 
@@ -352,6 +405,23 @@ def _ideal_verify_certificate(tls):
     return verify_certificate
 
 
+def _harness_controlled(e):
+    """the term depends on harness inputs only (the altered position/value), not on ideal-function outputs"""
+    stack, seen = [e], set()
+    while stack:
+        t = stack.pop()
+        i = t.get_id()
+        if i in seen:
+            continue
+        seen.add(i)
+        if z3.is_app(t) and t.decl().kind() == z3.Z3_OP_UNINTERPRETED and t.num_args() > 0:
+            return False
+        if z3.is_const(t) and t.decl().kind() == z3.Z3_OP_UNINTERPRETED and "#" in t.decl().name():
+            return False
+        stack.extend(t.children())
+    return True
+
+
 _URANDOM = [0]
 
 
@@ -372,7 +442,7 @@ def ideal_crypto():
     from cryptography.hazmat.primitives.asymmetric import ec
 
     ec.EllipticCurvePrivateKey.register(IdealPrivateKey)
-    saved = {n: tls.__dict__[n] for n in ("hashes", "hmac", "HKDFExpand", "x25519", "x509", "verify_certificate", "os")}
+    saved = {n: tls.__dict__[n] for n in ("hashes", "hmac", "HKDFExpand", "x25519", "x509", "verify_certificate", "os", "utcnow")}
     tls.hashes = _Proxy(saved["hashes"], Hash=IdealHash)
     tls.hmac = _Proxy(saved["hmac"], HMAC=IdealHMAC)
     tls.HKDFExpand = IdealHKDFExpand
@@ -380,9 +450,17 @@ def ideal_crypto():
     tls.x509 = _Proxy(saved["x509"], load_der_x509_certificate=ideal_load_der)
     tls.verify_certificate = _ideal_verify_certificate(tls)
     tls.os = _Proxy(saved["os"], urandom=_urandom)
+    fixed_now = datetime.datetime(2026, 1, 1, tzinfo=datetime.timezone.utc)
+    tls.utcnow = lambda: fixed_now
+    sx.UNIQUE_VIEWS = True
+    sx.CONCRETE_PULLS = _harness_controlled
+    sx.CONCRETIZE_CAP = 1200  # a one-byte length field may be the altered byte
     try:
         yield
     finally:
+        sx.UNIQUE_VIEWS = False
+        sx.CONCRETE_PULLS = None
+        sx.CONCRETIZE_CAP = 64
         tls.__dict__.update(saved)
 
 
@@ -400,7 +478,7 @@ STUBS = [
     "x509.load_der_x509_certificate -> opaque certificates; unknown encodings are untrusted with a key nobody honest holds",
     "sign/verify -> verification succeeds only for an output of sign() under the same key, parameters and data (EUF-CMA)",
     "verify_certificate -> validity relation of the harness' certificates (trusted, unexpired, name listed); OpenSSL path validation not encoded",
-    "os.urandom -> fixed pseudo-random stream (values are never branched on)",
+    "os.urandom -> fixed pseudo-random stream (values are never branched on); utcnow -> fixed instant (ticket validity is decided by the harness)",
 ]
 
 
